@@ -293,6 +293,9 @@ def solvers_for(Pb, nops):
         out.append(('pdhg;gamma_primal', lambda x, k, y0=None: S.pdhg(x, f, g, A, k, tau=0.9 / L, sigma=0.9 / L, gamma_primal=1.8 * Pb.q, **({'y': y0} if y0 is not None else {}))))
     out.append(('admm_linearized', lambda x, k, y0=None: S.admm_linearized(x, f, g, A, tau=0.9 / L ** 2, sigma=1.0, niter=k)))
     out.append(('proximal_gradient', lambda x, k, y0=None: S.proximal_gradient(x, f, g * A, gamma=0.45 / L ** 2, niter=k)))
+    out.append(('proximal_gradient;lam=0.5', lambda x, k, y0=None: S.proximal_gradient(x, f, g * A, gamma=0.45 / L ** 2, niter=k, lam=0.5)))
+    out.append(('proximal_gradient;lam=callable', lambda x, k, y0=None: S.proximal_gradient(x, f, g * A, gamma=0.45 / L ** 2, niter=k,
+                                                                                            lam=lambda k_: 0.5 + 0.4 / (k_ + 1.0))))
     out.append(('accelerated_proximal_gradient', lambda x, k, y0=None: S.accelerated_proximal_gradient(x, f, g * A, gamma=0.45 / L ** 2, niter=k)))
     # Douglas-Rachford / forward-backward with the data term split into nops row blocks
     m = Y.size
@@ -353,6 +356,8 @@ def run_planted(ctx, idx0):
                         tol_e, tol_k = (5e-2, 2e-1) if accel else (1e-6, 1e-5)
                         if 'h=block0' in name:
                             tol_e, tol_k = 1e-3, 1e-2     # the documented step rule with a smooth term forces small steps
+                        if name.startswith('proximal_gradient;lam'):
+                            tol_e, tol_k = 1e-2, 5e-2     # under-relaxed steps: half the contraction per iteration
                         cfg = '%s;%s' % (cfgp, var) if var else cfgp
                         for start in ('zero', 'random'):
                             x = Pb.X.zero() if start == 'zero' else Pb.X.element(rng.normal(size=Pb.X.size))
